@@ -157,6 +157,20 @@ def replay_tables(run, recs):
         run.count()
         if str(Unit(s)) != s:
             run.violation("unit|str", {"str": s, "got": str(Unit(s))})
+    # a bare number with the unit given apart
+    from decimal import Decimal as _D
+
+    for num in ("12.5", "3", "0.001", "283"):
+        for unit in ("mm", "cm", "in", "pt", "px"):
+            for value in (num, _D(num), float(num) if "." not in num or num == "12.5" else _D(num)):
+                run.count()
+                try:
+                    got = str(Unit(value, unit))
+                except Exception as ex:  # noqa: BLE001
+                    got = "exc:" + type(ex).__name__
+                want = f"{_D(str(value)) if not isinstance(value, str) else value}{unit}"
+                if got != want and _D(got[: -len(unit)] if got.endswith(unit) else "0") != _D(str(value)) or not got.endswith(unit):
+                    run.violation("unit|value-and-unit", {"value": repr(value), "unit": unit, "got": got})
     run.klass("unit")
 
 
